@@ -249,6 +249,9 @@ fn param_assign_programs() -> Vec<(String, Program, Option<String>)> {
 
 fn main() {
     let mut ctx = Ctx::from_env("C03");
+    if std::env::var("VERIF_DEBUG").is_ok() {
+        std::panic::set_hook(Box::new(|i| eprintln!("PANIC: {i}")));
+    }
     let base = probe_shapes(&mut ctx);
     // coverage-guided template families with their own oracles (harness/src/bg9cov.rs)
     bg9cov::run_templates(&mut ctx, "C03");
